@@ -77,3 +77,26 @@ Proof. split; [|vm_compute; reflexivity]. cbn. unfold blank, blank_char, ident_c
 Theorem C14_guard_parser_total : forall s, (size s < npos)%N -> exists g, parse_guard s = Some g.
 Proof. exact parse_guard_total. Qed.
 Print Assumptions C14_guard_parser_total.
+
+(* ---- whole transition lines (detail::parse_row / parse_row_right / parse_guards) ---- *)
+From Msm Require Import Lemmas_PumlRow.
+
+(* every line of the documented grammar
+       Source  -[-]*>  Target  [ : Event  [ / Actions ] [ [Guard] ] ]       (actions and guard in either order)
+   is split into exactly its five fields: identifiers, action lists and guard texts of any length - they may contain
+   anything but the structural characters - : / [ ] (blanks, commas, '*', '&&', '!', parentheses ... inside are kept) -,
+   arrows of any length, any amount of blank / tab padding at each of the up to sixteen gaps.  The only bound is that
+   the line is shorter than std::string::npos.  (wf_line: every pad is blank, every token starts and ends with a
+   character cleanup_token keeps; render / fields: Lemmas_PumlRow.v.) *)
+Theorem C14_parse_row_exact : forall l, wf_line l -> size (render l) < npos -> parse_row (render l) = fields l.
+Proof. exact parse_row_exact. Qed.
+Print Assumptions C14_parse_row_exact.
+
+(* a line meeting the hypotheses: "  Playing   --->  Paused : * / log, stop   [ !is_last && ok ]  " (Kleene event, action
+   list with a comma and a blank inside, guard expression with blanks inside, a four-character arrow) *)
+Example C14_parse_row_example : wf_line ex_line /\ size (render ex_line) < npos /\
+  t_event (parse_row (render ex_line)) = [42%nat] /\ parse_row (render ex_line) = fields ex_line.
+Proof.
+  destruct ex_line_ok as (H1 & H2 & H3). split; [exact H1|]. split; [exact H2|].
+  split; [rewrite H3; reflexivity | apply parse_row_exact; assumption].
+Qed.
